@@ -158,7 +158,7 @@ class Proxy(Part):
             "independent encoder or plain), the last line possibly unterminated; cut into write() calls at generated offsets (inside lines, inside escape "
             "sequences, empty writes, many newlines) interleaved with flush() at generated character boundaries; through FileProxy directly and through "
             "sys.stdout under a Live, with write() or writelines(), optionally every other call from a second thread (sequentially); the console output must decode to the same (char, attrs, fg, bg, link) sequence as the raw stream with one newline "
-            "added per non-empty flush; optionally one line of 201..20001 characters (folded by the console into full-width pieces; lengths around 1024/4096/8192/16384), also "
+            "added per non-empty flush; on a console created with or without soft_wrap (over-long lines then written whole); optionally one line of 201..20001 characters (folded by the console into full-width pieces; lengths around 1024/4096/8192/16384), also "
             "cut and flushed in the middle; non-trivial = a cut inside an escape sequence or a flush with a non-empty partial line")
     budget = {"quick": (8, 1200), "thorough": (16, 10000)}
 
@@ -170,7 +170,8 @@ class Proxy(Part):
         long = st.one_of(st.none(), st.none(), st.none(), st.builds(lambda i, n, sp, cut, fl: {"line": i, "len": n, "style": sp, "cut": cut, "flush": fl}, st.integers(0, 5), long_len, st.one_of(st.none(), st.sampled_from(GS.PALETTE)),
                                                                     st.one_of(st.none(), st.floats(0, 1), st.floats(0.9, 1)), st.booleans()))
         return st.builds(
-            lambda lines, last_nl, cuts, flushes, route, lg, wf, how, tb: {"lines": lines, "final_newline": last_nl, "cuts": cuts, "flushes": flushes, "route": route, "long": lg if not tb else None, "write_fault": wf, "how": how, "tabbed": tb},
+            lambda lines, last_nl, cuts, flushes, route, lg, wf, how, tb, soft: {"lines": lines, "final_newline": last_nl, "cuts": cuts, "flushes": flushes, "route": route, "long": lg if not tb else None, "write_fault": wf, "how": how, "tabbed": tb,
+                                                                                 "soft": soft},
             st.lists(line, min_size=1, max_size=6), st.booleans(),
             st.lists(st.integers(0, 400), max_size=10), st.lists(st.integers(0, 400), max_size=4), st.sampled_from(["proxy", "proxy", "live", "live-stderr"]), long, st.one_of(st.none(), st.none(), st.integers(0, 6)),
             # how the stream's methods are called: plainly; every other call from a short-lived second thread (one after the other, never at the same time); writelines() for every other chunk
@@ -178,6 +179,8 @@ class Proxy(Part):
             # one line of tab-separated fields on a console a little wider than the line is before its tabs are expanded (so it has to be wrapped after expansion)
             st.one_of(st.none(), st.none(), st.none(), st.builds(lambda i, fields, d: {"line": i, "fields": fields, "d": d}, st.integers(0, 5),
                                                                   st.lists(st.sampled_from(["id", "name", "status", "elapsed", "ok", "x", "12345", "a-long-field-name"]), min_size=2, max_size=8), st.integers(0, 12))),
+            # the console was created with soft_wrap=True: lines wider than the console are written whole (the terminal wraps them)
+            st.sampled_from([False, False, False, True]),
         )
 
     def check(self, spec, ctx):
@@ -242,7 +245,8 @@ class Proxy(Part):
         f = FaultyFile()
         # a write fault is injected only into plain streams written straight through a FileProxy (a lost line then carries no state of the decoder away with it)
         fault_chunk = spec.get("write_fault") if (spec["route"] == "proxy" and not lg and all(r["s"] is None for line in spec["lines"] for r in line)) else None
-        con = sut(Console, file=f, color_system="truecolor", force_terminal=True, legacy_windows=False, width=CW, _environ={})
+        soft = bool(spec.get("soft"))
+        con = sut(Console, file=f, color_system="truecolor", force_terminal=True, legacy_windows=False, width=CW, _environ={}, **({"soft_wrap": True} if soft else {}))
         sink = io.StringIO()
         expected_raw = ""  # raw stream with the newline each non-empty flush adds
         pending = ""
@@ -379,7 +383,8 @@ class Proxy(Part):
         ws = "".join(e[1] for e in want)
         if lg:
             # a line without spaces that is wider than the console is folded into full-width pieces; the other lines are narrower than the console
-            ws = "\n".join("\n".join(l[k:k + CW] for k in range(0, len(l), CW)) if len(l) > CW and l.isascii() and " " not in l else l for l in ws.split("\n"))
+            if not soft:
+                ws = "\n".join("\n".join(l[k:k + CW] for k in range(0, len(l), CW)) if len(l) > CW and l.isascii() and " " not in l else l for l in ws.split("\n"))
             got = [e for e in got if e[1] != "\n"]
             want = [e for e in want if e[1] != "\n"]
             ctx.cls("long-line")
@@ -412,6 +417,8 @@ class Proxy(Part):
         if nonempty_flush:
             ctx.cls("flush-partial-line")
         ctx.cls("route-" + spec["route"])
+        if soft:
+            ctx.cls("soft-wrap-console")
 
 
 PARTS = [Decode(), Proxy()]
